@@ -179,6 +179,9 @@ fn process_entry(c: &Corpus, e: &Entry, tier: Tier, seed: u64, known: &KnownFind
     let mut judge = |r: &mut EntryReport, kind: &str, site: &str, frame: &[u8], deep: bool, origin: Value| {
         crate::iso::trace_case(&|| json!({"entry": label, "corruption": kind, "site": site, "frame": vcommon::hex(frame), "origin": origin}));
         r.evals += 1;
+        if r.evals % 128 == 1 {
+            crate::iso::rebase_address_space_limit();
+        }
         let o = ep.read_only(frame);
         let reached_fields = !matches!(&o, Outcome::Err { class: ErrClass::InvalidSize, .. } | Outcome::Err { class: ErrClass::UnknownOpcode { .. }, .. });
         if deep || reached_fields {
@@ -397,15 +400,21 @@ pub fn run(tier: Tier, replay: Option<String>) -> i32 {
             Err(_) => 2,
         };
     }
-    c.rule = "per message: structured corruptions of the encodings reached by directed enumeration, built from the model's trace - truncation at every field boundary and mid-field (header consistent and stale), every count/length/size field set to 0, 1, true+-1, 0x7f.., 0xff.., 2^16, 2^24, every enum/bool/flag/mask/date field set to out-of-range patterns, strings made invalid UTF-8 / unterminated, header size 0/<opcode/-1/+1/+1000/max, zlib payloads truncated/bit-flipped/garbage/declared huge/zero/small/bombs - then random bodies under a consistent header and raw byte strings per endpoint. Each case runs in an isolated worker (address space = idle + 1 GiB, watchdog). Oracle: the call returns Ok or Err. Non-trivial = the corruption lies past the first field or the read got past the size window / opcode dispatch; distinct = (entry, corrupted site without indices, corruption kind).".into();
+    c.rule = "per message: structured corruptions of the encodings reached by directed enumeration, built from the model's trace - truncation at every field boundary and mid-field (header consistent and stale), every count/length/size field set to 0, 1, true+-1, 0x7f.., 0xff.., 2^16, 2^24, every enum/bool/flag/mask/date field set to out-of-range patterns, strings made invalid UTF-8 / unterminated, header size 0/<opcode/-1/+1/+1000/max, zlib payloads truncated/bit-flipped/garbage/declared huge/zero/small/bombs - then random bodies under a consistent header and raw byte strings per endpoint. Each case runs in an isolated worker (address-space limit = the worker's footprint, re-read every 128 cases, + 1.5 GiB; watchdog). Oracle: the call returns Ok or Err. Non-trivial = the corruption lies past the first field or the read got past the size window / opcode dispatch; distinct = (entry, corrupted site without indices, corruption kind).".into();
     c.assume("a worker killed by its watchdog is reported as inconclusive (exit 2), never as a violation");
-    c.assume("memory budget per decode: 1 GiB beyond the idle footprint of the worker (RLIMIT_AS); a frame is at most 64 KiB (Vanilla/TBC) or 8 MiB (Wrath server)");
+    c.assume("memory budget per decode: 1.5 GiB beyond the footprint of the worker at that time (soft RLIMIT_AS, re-based on /proc/self/statm every 128 cases, so the encodings the harness holds do not count); a frame is at most 64 KiB (Vanilla/TBC) or 8 MiB (Wrath server)");
     let only = std::env::var("VERIF_ONLY").ok();
     let mut labels: Vec<String> = corpus.entries.iter().map(|e| e.label()).filter(|l| only.as_ref().map(|o| l.contains(o.as_str())).unwrap_or(true)).collect();
     if only.is_none() {
         labels.extend(corpus.eps.iter().map(|e| format!("raw:{}", e.label())));
     }
-    let sup = crate::iso::supervise("C03", tier.as_str(), labels, 16, 12, std::time::Duration::from_secs(tier.pick(240, 3600)), vec![]);
+    // the entries that take minutes in the thorough tier (update objects, compressed containers, the raw sweeps) go
+    // first, each in a worker of its own, so that the run does not end with one worker finishing a heavy batch
+    let heavy = |l: &String| l.contains("UPDATE_OBJECT") || l.contains("COMPRESSED") || l.starts_with("raw:");
+    let mut batches: Vec<Vec<String>> = labels.iter().filter(|l| heavy(l)).map(|l| vec![l.clone()]).collect();
+    let light: Vec<String> = labels.iter().filter(|l| !heavy(l)).cloned().collect();
+    batches.extend(light.chunks(tier.pick(12, 4)).map(|c| c.to_vec()));
+    let sup = crate::iso::supervise_batches("C03", tier.as_str(), batches, 16, std::time::Duration::from_secs(tier.pick(240, 3600)), vec![]);
     let reports: Vec<EntryReport> = sup.reports.iter().map(EntryReport::from_json).collect();
     report_deaths(&mut c, "c03", &sup.deaths);
     c.extra.insert("entries".into(), json!(corpus.entries.len()));
